@@ -8,6 +8,11 @@
 //   O inv     calcResidualForceIgnoringConstraints(f, F, udotK)
 //   O realize getUDot after realize(Acceleration) with the same forces applied through Force::DiscreteForces
 //   O jt      multiplyBySystemJacobianTranspose(F)
+//   O argconv 8 x nu: calcResidualForceIgnoringConstraints with every combination of {zero-length, full-length} for
+//             (appliedMobilityForces, appliedBodyForces, knownUdot) -- zero length is documented to mean all-zero;
+//             combination k: bit0 = f zero-length, bit1 = F zero-length, bit2 = udot zero-length
+//   O accUdot A_GB (bodies 1..nb) of calcBodyAccelerationFromUDot(udotK), then of calcBodyAccelerationFromUDot(zero-length)
+//   O treeEquiv calcTreeEquivalentMobilityForces(F)  (= J'F - C)
 // P lines: the property's predicates on the implementation's own outputs.
 #include "treedyn_gen.h"
 static_assert(TREEDYN_GEN_VERSION == 12, "bump the version here when treedyn_gen.h changes");
@@ -18,6 +23,7 @@ static double svmax(const Vector_<SpatialVec>& v) {
     double m = 0; for (int i = 0; i < v.size(); ++i) for (int k = 0; k < 2; ++k) for (int j = 0; j < 3; ++j) m = std::max(m, std::fabs(v[i][k][j])); return m;
 }
 
+static long nArgconvNonzeroU = 0, nCasesRun = 0;
 static void runCase(uint64_t caseSeed, int code) {
     td::Options opt; td::applyGenCode(code, opt); opt.zeroUProb = 0.25;
     std::unique_ptr<TreeCase> pc = td::buildCase(caseSeed, opt);
@@ -53,10 +59,51 @@ static void runCase(uint64_t caseSeed, int code) {
     vh::O("inv").v(resid, nu).emit();
     vh::O("realize").v(udotR, nu).emit();
     vh::O("jt").v(JtF, nu).emit();
+    ++nCasesRun;
+    // ---- documented argument conventions of the public operators: zero-length == all-zero
+    struct Conv { double worstID = 0, worstRF = 0; };
+    std::vector<Conv> conv(8);
+    {
+        const Vector e0; const Vector_<SpatialVec> E0;
+        const Vector z0(nu, 0.0); Vector_<SpatialVec> Z0(nb + 1); Z0 = SpatialVec(Vec3(0), Vec3(0));
+        vh::Line o = vh::O("argconv");
+        for (int k = 0; k < 8; ++k) {
+            const bool fz = k & 1, Fz = (k & 2) != 0, uz = (k & 4) != 0;
+            Vector r1, r2, re;
+            matter.calcResidualForceIgnoringConstraints(s, fz ? e0 : f, Fz ? E0 : F, uz ? e0 : udotK, r1);
+            matter.calcResidualForce(s, fz ? e0 : f, Fz ? E0 : F, uz ? e0 : udotK, e0, r2);      // empty knownLambda
+            matter.calcResidualForceIgnoringConstraints(s, fz ? z0 : f, Fz ? Z0 : F, uz ? z0 : udotK, re);   // explicit zeros
+            const double sc = std::max(1.0, td::vmaxabs(re));
+            if (r1.size() != nu || r2.size() != nu) { conv[k].worstID = conv[k].worstRF = INFINITY; for (int i = 0; i < nu; ++i) o.d(NAN); continue; }
+            conv[k].worstID = nu ? td::vmaxabs(r1 - re) / sc : 0; conv[k].worstRF = nu ? td::vmaxabs(r2 - re) / sc : 0;
+            o.v(r1, nu);
+        }
+        o.emit();
+    }
+    double accConv = 0;
+    {
+        Vector_<SpatialVec> A1, A0, Az; const Vector e0; const Vector z0(nu, 0.0);
+        matter.calcBodyAccelerationFromUDot(s, udotK, A1); matter.calcBodyAccelerationFromUDot(s, e0, A0); matter.calcBodyAccelerationFromUDot(s, z0, Az);
+        vh::Line o = vh::O("accUdot");
+        for (int i = 1; i <= nb; ++i) o.v(A1[i][0], 3).v(A1[i][1], 3);
+        for (int i = 1; i <= nb; ++i) o.v(A0[i][0], 3).v(A0[i][1], 3);
+        o.emit();
+        for (int i = 0; i <= nb; ++i) for (int r = 0; r < 2; ++r) for (int q = 0; q < 3; ++q) accConv = std::max(accConv, std::fabs(A0[i][r][q] - Az[i][r][q]));
+    }
+    { Vector te; matter.calcTreeEquivalentMobilityForces(s, F, te); vh::O("treeEquiv").v(te, nu).emit(); }
+    if (!c.zeroU) { ++nArgconvNonzeroU; vh::D("argconv.u_nonzero"); } else vh::D("argconv.u_zero");
     td::emitTags(c);
     vh::D(std::string("u.") + (c.zeroU ? "zero" : "nonzero"));
     vh::D("bodyforces." + std::to_string(fmode));
 
+    {   // every zero-length call equals the call with explicit all-zero arrays (one key per operator x combination)
+        static const char* nm[8] = {"fN_FN_udotN", "f0_FN_udotN", "fN_F0_udotN", "f0_F0_udotN", "fN_FN_udot0", "f0_FN_udot0", "fN_F0_udot0", "f0_F0_udot0"};
+        for (int k = 0; k < 8; ++k) {
+            vh::P("zero_length_means_all_zero", std::string("argconv.calcResidualForceIgnoringConstraints.") + nm[k] + ".equals_explicit", conv[k].worstID, 1e-13);
+            vh::P("zero_length_means_all_zero", std::string("argconv.calcResidualForce.") + nm[k] + "_lambda0.equals_explicit", conv[k].worstRF, 1e-13);
+        }
+        vh::P("zero_length_means_all_zero", "argconv.calcBodyAccelerationFromUDot.udot0.equals_explicit", accConv, 1e-13);
+    }
     if (nu == 0) return;
     const std::string key = td::anyLoneParticle(c) ? "C02.loneparticle" : "C02.tree";
     {   // the gyroscopic force used by both recursions IS b = (w x (I w), m w x (w x p)), recomputed from body-frame public data
@@ -141,6 +188,7 @@ int main(int argc, char** argv) {
     if (args.mode == "replay") {
         static char buf[1 << 24];
         while (std::fgets(buf, sizeof buf, stdin)) {
+            if (std::strncmp(buf, "I summary ", 10) == 0) { std::fputs(buf, stdout); std::printf("O summary 1\n"); continue; }
             if (std::strncmp(buf, "I fwdinv ", 9) != 0) continue;
             unsigned long long cs; int code;
             if (std::sscanf(buf + 9, "%llu %d", &cs, &code) == 2) runCase(cs, code);
@@ -155,5 +203,8 @@ int main(int argc, char** argv) {
         if (thorough && master.below(5) == 0) maxB = 40;
         runCase(cs, td::genCode(maxB, td::flagsForCase(k)));
     }
+    // floor of the guaranteed class: at least half of the cases exercised every argument convention at u != 0
+    std::printf("I summary %ld %ld\nO summary 1\n", nCasesRun, nArgconvNonzeroU);
+    vh::P("argconv_class_floor", "argconv.floor", nCasesRun ? 0.5 - (double)nArgconvNonzeroU / nCasesRun : 0, 0);
     return 0;
 }
